@@ -1,0 +1,19 @@
+// Package simhook provides yield points for deterministic-simulation testing.
+//
+// In normal builds Point is an empty function that the compiler inlines away:
+// the library's behaviour is unchanged. When the library is built with the
+// `verif` build tag, Point calls the Yield callback (if one is installed), which
+// lets a test harness that owns the scheduling of several cooperating goroutines
+// switch between them inside otherwise uninterruptible regions (lexing, token
+// lookahead, code writing, compilation).
+package simhook
+
+// Yield-point sites.
+const (
+	LexerNextToken = iota
+	ParserNextToken
+	WriterWrite
+	CompileBegin
+	CompileEnd
+	NumSites
+)
